@@ -401,8 +401,18 @@ func c15EvalAt(in c15Input, t c15T, count c15Counter) (fails []c15Fail) {
 				fail(k+"/apply/out-of-range-wrong-index", fmt.Sprintf("error reports index %d, which no out-of-range update of the list carries", oe.Index), nil)
 			}
 		}
-		// state after a refused call is not specified beyond "no other child is touched"
-		cs, _ := c15Extract(e)
+		// state after a refused call: no other child is touched, and every update later
+		// than t is still pending, in original order (the in-time ones: not specified)
+		cs, eus := c15Extract(e)
+		var late []c15Upd
+		for _, u := range eus {
+			if t.less(u.At) {
+				late = append(late, u)
+			}
+		}
+		if pan == nil && !c15SameUpdates(late, want.Updates) {
+			fail(k+"/apply/out-of-range-pending-lost", fmt.Sprintf("after the refused call the updates later than t read %s, want %s (all of them, original order)", fw.JSON(late), fw.JSON(want.Updates)), nil)
+		}
 		if len(cs) != len(in.Children) {
 			fail(k+"/apply/out-of-range-children", fmt.Sprintf("child list length changed from %d to %d on the error path", len(in.Children), len(cs)), nil)
 		} else {
@@ -589,6 +599,65 @@ func c15EvalPair(in c15Input, t1, t2 c15T, count c15Counter) (fails []c15Fail) {
 		fail(key, fmt.Sprintf("apply(t1);apply(t2) differs from apply(t2) on a second copy: direct children %s pending %s", fw.JSON(cs), fw.JSON(us)))
 	}
 	return
+}
+
+// c15EvalKept asks one way (and a struct copy of it, alternately) for its geometry at every
+// instant, keeps all results, and only then looks at them: a result the caller holds must
+// not be changed by later queries, and the results must not share memory with each other.
+func c15EvalKept(in c15Input, ts []c15T, count c15Counter) (fails []c15Fail) {
+	if in.Rel || len(in.Children) == 0 {
+		return nil
+	}
+	fail := func(key, what string) {
+		fails = append(fails, c15Fail{key, what, map[string]any{"input": in.describe()}})
+	}
+	defer func() {
+		if p := recover(); p != nil {
+			fail("C15/linestring-at/panic", fmt.Sprintf("LineStringAt panicked: %v", p))
+		}
+	}()
+	w := in.way()
+	cp := c15StructCopy(w).(*osm.Way)
+	kept := make([]orb.LineString, len(ts))
+	snap := make([][][2]float64, len(ts))
+	for i, t := range ts {
+		q := w
+		if i%3 == 2 {
+			q = cp
+		}
+		kept[i] = q.LineStringAt(t.time(c15QueryZone(t)))
+		snap[i] = lineToPairs(kept[i]) // the answer as it was handed out
+		count("linestring_at_results_kept")
+	}
+	for i := range kept {
+		if !c15SameLine(kept[i], snap[i]) {
+			fail("C15/linestring-at/kept-result-overwritten", fmt.Sprintf("the result of LineStringAt(%s) was %v when returned and reads %v after later queries on the same way / its struct copy", ts[i], snap[i], kept[i]))
+			return
+		}
+	}
+	// write into one result: the others and the ways must not notice
+	for i := range kept {
+		if len(kept[i]) == 0 {
+			continue
+		}
+		for j := range kept[i] {
+			kept[i][j] = orb.Point{-777.25, 888.5}
+		}
+		for j := range kept {
+			if j != i && !c15SameLine(kept[j], snap[j]) {
+				fail("C15/linestring-at/results-share-memory", fmt.Sprintf("writing into the result for %s changed the result for %s", ts[i], ts[j]))
+				return
+			}
+		}
+		for _, q := range []*osm.Way{w, cp} {
+			if cs, us := c15Extract(q); !c15SameChildren(cs, in.Children) || !c15SameUpdates(us, in.Updates) {
+				fail("C15/linestring-at/results-share-memory", "writing into a result changed the way")
+				return
+			}
+		}
+		break
+	}
+	return fails
 }
 
 // ---- shrinking --------------------------------------------------------------------------
@@ -1105,6 +1174,10 @@ func (x *c15Run) check(in c15Input, order, ann string) {
 			x.report(in, fails, func(y c15Input) []c15Fail { return c15EvalAt(y, t, func(string) {}) })
 		}
 	}
+	if fails := c15EvalKept(in, ts, count); len(fails) > 0 {
+		x.report(in, fails, func(y c15Input) []c15Fail { return c15EvalKept(y, ts, func(string) {}) })
+	}
+	x.res.Eval("")
 	// composability: all pairs t1 <= t2 when few, else neighbours, extremes and a sample
 	var pairs [][2]int
 	if len(ts)*(len(ts)+1)/2 <= x.maxPair {
@@ -1307,6 +1380,8 @@ func init() {
 			"composition with apply(t2) directly is asserted only when each child's updates are stored in time order; otherwise the two-step result is compared with two reference steps only",
 			"the Reverse flag is generated for every update but only way members carry a non-zero orientation; way nodes have no orientation and must ignore it",
 			"LineStringAt and Updates.UpTo are queries: they must leave their receiver unchanged",
+			"a LineStringAt result belongs to the caller: results for all instants of one way (and of a struct copy of it) are kept and compared afterwards; a later query must not change an earlier result and writing into one result must not change another or the way",
+			"after a refused ApplyUpdatesUpTo (in-time out-of-range index) the updates later than t must all still be in the list in original order; which in-time updates remain is not asserted",
 			"consumer part: no orientation semantics are asserted, only that annotate.Relations gives the same relation whether a member way still carries its updates or has had those up to the relation's commit time applied by the reference model",
 		},
 		Cases: func(tier string, seed uint64) []fw.Case {
